@@ -591,8 +591,8 @@ H("C07", "model", "c07_write_to_buffer_elements_half", tier="thorough", unwind=1
 
 # C14: whole-file parse of a generated minimal shader package
 H("C14", "shpk", "c14_shader_package_from_existing", tier="quick", unwind=20, timeout=1500, cbmc_args=FS1K, kani_args=["--no-assertion-reach-checks"],
-  bounds="268-byte package: 0 shaders / resource parameters, 1 material parameter, 1 system + 1 material key, 3 nodes x 1 pass, 1 alias (counts concrete); every id, key, "
-         "selector, pass field and the alias target (0..3, 3 = missing node) symbolic; symbolic query selector",
+  bounds="216-byte package: 0 shaders / resource parameters, 1 material parameter, 1 system + 1 material key, 2 nodes x 1 pass, 1 alias (counts concrete); every id, key, "
+         "selector, pass field and the alias target (0..2, 2 = missing node) symbolic; symbolic query selector",
   encodes=["shpk::ShaderPackage::from_existing", "shpk::ShaderPackage (BinRead)", "shpk::Node (BinRead)", "shpk::ShaderPackage::find_node"],
   stubs=["core::str::validations::run_utf8_validation -> ASCII-only model"])
 
